@@ -2,6 +2,7 @@
 From Coq Require Import List ZArith QArith Qround Bool.
 From PV Require Import lib.Sx lib.Str lib.Result.
 From PV Require Import model.Base spec.SpecBase model.TimeWrite spec.SpecTimeW extract.OrCommon.
+From PV Require model.Langs spec.SpecTimeSamiDoc.
 Import ListNotations.
 Open Scope Z_scope.
 
@@ -110,6 +111,29 @@ Definition req_groups (arg : sx) : sx :=
   | None => bad
   end.
 
+(* 206: the SAMI DOCUMENT model over all languages of a set (model/Langs.v sami_write: placement of every paragraph);
+   arg = per language the list of [start; end] (exact rationals; the writer computes int(t // 1000) = floor(t) / 1000);
+   answer = per language the paragraphs of its class in document order as [sync start ms; is blank] *)
+Definition sx_wcue (x : sx) : option Langs.wcue :=
+  match x with
+  | SL [a; b] => match sx_q a, sx_q b with
+                 | Some s, Some e => Some (Langs.mkWcue (Qfloor s) (Qfloor e) [116])
+                 | _, _ => None
+                 end
+  | _ => None
+  end.
+Fixpoint number_langs (i : Z) (ls : list (list Langs.wcue)) : list (str * list Langs.wcue) :=
+  match ls with [] => [] | l :: t => ([65 + i], l) :: number_langs (i + 1) t end.
+Definition req_sami_doc (arg : sx) : sx :=
+  match sx_listof (sx_listof sx_wcue) arg with
+  | Some ls =>
+      let cs := number_langs 0 ls in
+      let b := Langs.sami_write cs in
+      of_list (fun lc => of_list (fun o : Z * bool => SL [SI (fst o); SI (if snd o then 1 else 0)])
+                                 (SpecTimeSamiDoc.doc_obs (fst lc) b)) cs
+  | None => bad
+  end.
+
 Definition dispatch (code : Z) (arg : sx) : option sx :=
   match code with
   | 200 => Some (req_model arg)
@@ -118,5 +142,6 @@ Definition dispatch (code : Z) (arg : sx) : option sx :=
   | 203 => Some (req_ok_sami arg)
   | 204 => Some (req_classify arg)
   | 205 => Some (req_groups arg)
+  | 206 => Some (req_sami_doc arg)
   | _ => None
   end.
